@@ -18,7 +18,7 @@ CHECKS = {
         text=(
             "The AKAI pipeline is modelled in full in Lean (partition scan, volume table, SAT decode, chain walk, file table, sample header, data window, naming, pairing, transcoder, RIFF assembly: lean/Smpl/Model/Akai*.lean) and that model is the one the driver runs. "
             "Proved, for all inputs: get_path resolves any well-formed chain in any order (C07_getPath_wf); a FileStream over any chain order reads exactly the concatenation of its sectors for any position/size, incl. reads ending exactly on a sector boundary (mkChain_isFile, readPieces_spec); "
-            "the parser's segment content is that logical content (C01_segment_eq); WAV structure (C04), byte-order routing (C12). NOT yet closed as one theorem: C01_export = parse(ser d A) = expected d (needs the SAT-decoder correctness theorem C07_akai_wf and a Lean writer; stated in DESIGN). "
+            "the parser's segment content is that logical content (C01_segment_eq); WAV structure (C04), byte-order routing (C12). Composition on the model: C01_realize_sample (on a complete partition a sample entry whose chain resolves to `path` is realised with exactly the bytes [140+2*start, 140+2*end) of the chain's sectors in chain order cut to the entry size), via C01_prefix_is_segment / C01_holey_is_segment / C01_file_audio; C07_akai_path_follows_sat (the resolved chain follows the SAT); struct layouts of partition header, volume entry, file entry, loop entry, sample header regenerated from /repo and compared with frozen tables (Props/Layouts). NOT yet closed as one theorem: exportOf (ser d) = expected d over a Lean writer (needs decoder completeness). "
             "Tie: logical discs -> independent Python writer -> real `export` and `ls` at every node vs the Lean model byte-for-byte (hash of every exported file), with head-not-lowest chains, exact-fill files (k*8192-140), empty windows, rate 0, directory runs; oracle computed from the logical model. "
             "Found and repaired through this check: D1, D2, empty-window export (fix 170824f)."
         ),
@@ -45,18 +45,18 @@ CHECKS = {
         design_ref="DESIGN.md §4 C04",
     ),
     "C05": dict(
-        technique="Lean 4 proof (shape of a recognised stereo name) + exhaustive correspondence of the pairing routine over near-collision lists",
+        technique="Lean 4 proof (shape of a recognised stereo name; partition theorem for the pairing loop) + exhaustive correspondence of the pairing routine over near-collision lists",
         text=(
             "Machine-checked so far: C05_stereo_shape — a name is recognised by the pairing rule only if it is stem ++ non-empty run of blanks/hyphens ++ L|R ++ blanks, so two names are paired only when they differ in nothing but that letter. "
-            "NOT yet proved: the partition theorem (no sample lost or duplicated under distinct names) — validated exhaustively instead. Tie: the stereo regex on every string of length <= 4 over {A,L,R,' ','-','.','1'}; combine_stereo_routine on every list of <= 3 (thorough 4) distinct names from a 20-name near-collision pool in every order, "
+            "C05_partition — for distinct sibling names that end in their last non-blank character (export names are stripped) the indices of the written groups are a permutation of 0..n-1: no sample is lost or duplicated (invariant proof over the pairing loop, Lemmas/Stereo: stereoMatch_build/_alt, go_partition). NOT proved: which half goes to which channel (oracle + correspondence). Tie: the stereo regex on every string of length <= 4 over {A,L,R,' ','-','.','1'}; combine_stereo_routine on every list of <= 3 (thorough 4) distinct names from a 20-name near-collision pool in every order, "
             "random lists after the real export-name pass; oracle: every index exactly once, pairs exactly where names differ only in the final L/R, output names distinct, L in channel 0 through the real combine_stereo + WAV builder for both directory orders."
         ),
         design_ref="DESIGN.md §4 C05",
     ),
     "C06": dict(
-        technique="Lean 4 proof (head/non-emptiness of every export name) + exhaustive correspondence of sanitising and de-duplication + end-to-end CDDA exports with hostile titles",
+        technique="Lean 4 proof (uniqueness of assigned names, character set, head and tail of every export name) + exhaustive correspondence of sanitising and de-duplication + end-to-end CDDA exports with hostile titles",
         text=(
-            "Machine-checked so far: C06_export_head — every export name is non-empty and starts with a word character (so no component is empty, '.', '..', or starts with a separator). NOT yet proved: the uniqueness theorem for the (repaired) de-duplication and the full character-set theorem — validated exhaustively instead. "
+            "Machine-checked so far: C06_export_head — every export name is non-empty and starts with a word character (so no component is empty, '.', '..', or starts with a separator). C06_unique (dedupe_nodup: whatever the candidate names — duplicates, names equal after sanitising, names colliding with a generated `(n)` — the assigned names are pairwise distinct, one per sibling; invariant proofs over groupBy / nextFree / assignGroup / the group loop in Lemmas/Dedupe), C06_charset (every character of an export name is a word character, blank, '-', '.' or '#'), C06_dir_tail (a directory component never ends in '.' or '-'). NOT proved: that the digits of `(n)` are digits (Nat.repr), confinement on disk (oracle). "
             "Tie: make_safe_name/make_export_name on every string of length <= 3 (thorough 4) over an 18-character alphabet with / \\ . : quotes ( ) # and a control character; sanitize_names_general on every sibling list of length <= 3 (thorough 4) from the near-collision pool, both passes; "
             "CDDA exports with '../x', separators, duplicate and blank titles checked on disk (inside destination, #files = #Exported lines, component rules). Found and repaired: D3, D4, D5."
         ),
@@ -68,7 +68,7 @@ CHECKS = {
             "Machine-checked: get_path resolves every well-formed chain (any sector order) to exactly its sectors (C07_getPath_wf), whatever it returns is a chain of the table (C07_getPath_sound), and on EVERY table "
             "(cycles, self-links, cross-links, out-of-range links) it ends with a path of at most `size` sectors or one of two reported errors (C07_getPath_total, C07_getPath_cycle_reported); add_to_sector_links installs exactly "
             "the chain it is given (C07_addLinks_chain); the AKAI SAT walk terminates on every word table — Lean's termination checker accepted the lexicographic measure (2*#clean - [current clean], size - current), proof in Smpl.Alloc.akai_measure — and the "
-            "Roland walk terminates by structural recursion on its loop guard. NOT yet proved (validated exhaustively instead): that the two *decoders* install exactly the well-formed chains (C07_akai_wf / C07_roland_wf of DESIGN). "
+            "Roland walk terminates by structural recursion on its loop guard. Decoder soundness: C07_roland_sound / C07_akai_sound — every entry of the decoded link table is an end mark or exactly the step the FAT / SAT word of that sector prescribes (a link word names the next sector, an AKAI directory-flag word continues with the following sector), on every table the decoder accepts; hence C07_roland_path_follows_fat / C07_akai_path_follows_sat: any chain get_path resolves over the decoded table follows the raw table. NOT yet proved (validated exhaustively instead): decoder completeness (a well-formed chain is installed whole). "
             "Tie: every raw AKAI table of 5 sectors over {free, EOF, both reserved flags, each link, out of range} and every small Roland table, decode + get_path from every start, model vs real code; property oracle computed from the raw words independently. "
             "Three genuine defects were found by this check and repaired (fix: commits 496f278, 38611f1, 60236d3)."
         ),
@@ -80,7 +80,7 @@ CHECKS = {
             "Machine-checked refinement: each class (StreamWrapper, StreamOffset, FileStream, SectorStream, MdfStream) is proved to behave as a read-only file over its logical content in EVERY store satisfying the global cursor invariant — "
             "whatever the cursors of the objects beneath it are — and the lemmas compose by induction over an arbitrary nesting (build_isFile). C08_refines: for any history of tell/seek(offset,whence)/read(n>=0) the answers equal those of the abstract file "
             "(read returns the logical bytes clipped at the end, cursor advances by the bytes returned, seek clamps to [0,len]); C08_window: nothing outside the window is returned. The multi-sector read plan of SectorStream._read is proved to return the exact slice "
-            "for any sector size and any chain order (readPieces_spec). NOT yet proved: StreamReversed (modelled, tied and checked by the oracle; theorem pending). Tie: all histories of length <= 2 (+ stripes of 3/4) over 7 shapes and random nests to depth 4, model vs real objects over BytesIO. "
+            "for any sector size and any chain order (readPieces_spec). StreamReversed: C08_reversed_aligned (over any substream that behaves like a file, a read of m whole samples from a sample-aligned cursor returns exactly the bytes of the row-reversed content and advances by them: revContent_block + wrapRead_spec), C08_reversed_rejects_size / _position (a size or position that is not sample-aligned is rejected with an error). The reversed view is not folded into the Shape induction (its reads are partial). Tie: all histories of length <= 2 (+ stripes of 3/4) over 7 shapes and random nests to depth 4, model vs real objects over BytesIO. "
             "One genuine defect found and repaired (fix: 000eb96, read at the exact end of a chained file raised IndexError)."
         ),
         design_ref="DESIGN.md §4 C08",
@@ -95,10 +95,10 @@ CHECKS = {
         design_ref="DESIGN.md §4 C09",
     ),
     "C10": dict(
-        technique="Lean 4 proof (totality of the lookup, single-level round trip under distinct normalised names) + correspondence of tokenising/lookup/not-found message on real Traversable trees",
+        technique="Lean 4 proof (totality of the lookup, round trip at any depth under distinct normalised names) + correspondence of tokenising/lookup/not-found message on real Traversable trees",
         text=(
             "Machine-checked so far: C10_total (for every path string the lookup finds a node or yields the `was not found` message: no exception path), C10_root, C10_child (in a directory whose children have pairwise distinct normalised names the token equal to a child's printed name finds exactly that child, at any depth of the remaining path). "
-            "NOT yet proved: the multi-level round-trip with blanks/trailing separators as one theorem. Tie: path tokenising on every string of length <= 4 over {a,A,/,\\,:,space} (plain and AKAI normalisation); trees of real Traversable/LeafElement objects with the real naming routines: "
+            "C10_roundtrip — at any depth: for any node at index path idx, the path made of the names shown for the nodes on the way addresses exactly idx, provided no earlier sibling has the same normalised name at each level. NOT proved: the surface syntax (blanks, trailing separators: exhaustive tokeniser correspondence). Tie: path tokenising on every string of length <= 4 over {a,A,/,\\,:,space} (plain and AKAI normalisation); trees of real Traversable/LeafElement objects with the real naming routines: "
             "every node x 8 spellings of its printed path must resolve and render, arbitrary strings never raise, and the model's result (node or exact message) equals the real parse_path."
         ),
         design_ref="DESIGN.md §4 C10",
@@ -117,7 +117,7 @@ CHECKS = {
         text=(
             "Machine-checked: C12_swaps_host_independent — whichever of the three process lists make_transcoder builds and whatever the host byte order, channel c of a block has each sample byte-reversed exactly when its SOURCE STREAM's byte order differs from the destination's, "
             "one flag per decoded channel in source order (this is the statement the pinned code violated; fix a59da5e); C12_channels (an accepted transcoder has one output channel per source channel), C12_tail (trailing bytes < 1 frame never reach the output), "
-            "passLoop_flatten (passthrough = whole frames for every block size, in Props/C03). NOT yet proved: the frame-by-frame statement C12_frames / C12_length for the pipeline loop (validated exhaustively by the lattice and the oracle). "
+            "passLoop_flatten (passthrough = whole frames for every block size, in Props/C03). C12_pair / pipeLoop_pair — a left and a right mono stream of F frames each (the stereo pairs of AKAI and Roland) come out as exactly F interleaved frames, frame f = left frame f then right frame f, for every internal block size (induction over the pipeline loop). NOT yet proved: the general statement for interleaved and unequal sources (validated exhaustively by the lattice and the oracle). "
             "Tie: exhaustive lattice 1..3 streams x {1,2,3} interleaved channels x width {1,2,4} x byte order per stream x lengths {0..3 frames + partial bytes} x block {1 frame, 2 frames, 4096} x host {LE, BE patched}, every source byte distinct."
         ),
         design_ref="DESIGN.md §4 C12",
@@ -136,7 +136,7 @@ CHECKS = {
         text=(
             "PARTIAL BY NATURE: CPU seconds and resident memory of CPython are not expressible in the model. Machine-checked, for all inputs: every loop of the model is a total Lean function (structural or with a proved measure: C13_akai_walk_measure; no `partial`), "
             "C13_get_path (<= size sectors or a reported error on any table), C13_partition_count (partitions x 8192 <= file size) and C13_partition_fuel (the model's fuel never cuts the scan short), C13_file_table (<= len/24 entries), C13_cue_tracks / C13_cue_fuel, "
-            "C13_roland_volumes / _perf_scan / _chain (<= count, 512, 65536), C13_window_bound (audio <= content). "
+            "C13_roland_volumes / _perf_scan / _chain (<= count, 512, 65536), C13_window_bound (audio <= content), C13_keygroups (the keygroup chain is walked number_of_keygroups times whatever next-addresses are stored). "
             "Tie + oracle: random bytes (bare / behind AKAI or Roland signatures / sparse 2.9 MB / as cue body) and generated AKAI, Roland, CDDA images with 1-3 targeted corruptions (SAT/FAT specials, in-range links, 2-cycles, self loops, long cycles outside any file, noise; sizes, counts, pointer lists, headers; kilobyte-long cue titles and lines, thousands of tracks, huge numbers) run ls (3 levels) + export in a forked child with RLIMIT_CPU = 10 s + 20 s/MiB and RLIMIT_AS growth = 256 MiB + 32 x size; "
             "AKAI/Roland/random inputs are also run through the Lean model and must agree on outcome class and results. Found and fixed: cubic regex in make_export_name (6bd604a); re-finds D7 (Roland FAT cycle) when the guard is removed."
         ),
@@ -158,7 +158,7 @@ CHECKS = {
         text=(
             "Machine-checked: rd_setEntry / C14_other_entries — whatever 24 bytes replace entry k of an AKAI file table, every other entry parses to exactly what it parsed to before and its end-marker test is unchanged, because every entry is read at its own boundary 24*j (true after fix 3b83a7e; the pinned code lost all following entries: D9). "
             "Tie: for generated volumes every type-byte value and a set of values of each of the other 23 byte positions of an entry (thorough: all 256), plus multi-byte damage: ls + export compared with the undamaged run (oracle) and with the Lean model. "
-            "Recorded finding KF-C14-name-collision (a damaged name that now equals a sibling's name renames one of them: inherent to naming by stored name). Roland records: pending C02."
+            "Recorded finding KF-C14-name-collision (a damaged name that now equals a sibling's name renames one of them: inherent to naming by stored name). Roland: C14_roland_other_samples — whatever bytes replace the directory and parameter records of sample i, every other sample's record parses to what it parsed to before (records of different indices do not overlap; directory area ends before the parameter area). Found and fixed through this check: 9b6f1ef (a damaged size that cuts a header inside an integer field crashed the whole volume)."
         ),
         design_ref="DESIGN.md §4 C14",
     ),
@@ -167,7 +167,7 @@ CHECKS = {
         text=(
             "Machine-checked (data path, all chains / windows / cuts): C15_read_prefix (pieces that are prefixes of full sectors => the forward block read is a prefix of the read over the complete chain), C15_read_is_window_prefix (never bytes from elsewhere), "
             "C15_complete_forward / _reversed (nothing missing => the whole window), C15_akai_audio_prefix and C15_roland_audio_prefix (instances for a partition / image cut at any byte, any chain order), C15_wav (= C04: whatever PCM results the file is well formed). "
-            "NOT proved: the directory path (which files are reported at all) and the reverse-mode prefix; both are validated by the sweep. "
+            "C15_roland_reverse_prefix (reverse modes: blocks are read from the end of the window, what survives is a prefix of the reversed audio). NOT proved: the directory path (which files are reported at all); validated by the sweep. "
             "Tie + oracle: generated AKAI (directories before/after data, pairs), Roland and CDDA images cut at every sector/cluster/frame boundary (-1,0,+1), inside every partition header field, the tables, directories, parameter areas and random offsets; each reported file must be a well-formed WAV whose PCM is a prefix of the complete run's, each file lying before the cut must be exported complete; AKAI/Roland cut images also go through the Lean model (export + ls). "
             "Found and fixed: 51a0010 (short header read aborted the export), 36640b1 (struct.error from a cut partition header)."
         ),
